@@ -72,6 +72,9 @@ func main() {
 			// the non-target context the schema can address (same envelope in all runs)
 			extra = append(extra, f.CtxField())
 		}
+		if f.AncestorField() != "" && kind != "perm" && r.Chance(0.4) {
+			extra = append(extra, f.AncestorField())
+		}
 		schema, feats := f.SchemaWith(r, []string{"fuses", "cast"}, extra, env)
 		comp, err := pipe.Compile(schema)
 		if err != nil {
